@@ -14,5 +14,5 @@ CONSTANTS
   BindTO = 30
   MaxDepth = 6
 CONSTRAINT DepthBound
-INVARIANT TypeOK
+INVARIANTS TypeOK C15_NothingAfterClose
 PROPERTIES C16_UniqueIds C16_BindOnce C16_InboundPermitted C16_Dup446 C16_HeldDelivered
